@@ -6,6 +6,7 @@ package event
 
 import (
 	"sync"
+	"time"
 
 	"github.com/AliceO2Group/Control/common/monitoring"
 	pb "github.com/AliceO2Group/Control/common/protos"
@@ -192,4 +193,27 @@ func HarnessPopMultipleBound() {
 	}
 	vrt.Assert(f.Length() == n-want, "pop-multiple-removes-what-it-returns")
 	vrt.Reach("popped")
+}
+
+// Producer side (Push) and consumer side (PopMultiple / Length) of the hand-over buffer exclude each other: while
+// the harness holds the lock the consumer side works under (the buffer as KafkaWriter holds it, i.e. a copy of what
+// NewFifoBuffer returns), a Push cannot complete; it completes once the lock is released, and the element is there.
+//verif:entry HarnessFifoSidesExcludeEachOther unwind=16 preempt=2 reach=excluded
+func HarnessFifoSidesExcludeEachOther() {
+	w := &KafkaWriter{messageBuffer: NewFifoBuffer[kafka.Message]()}
+	buf := &w.messageBuffer
+	pushed := false
+	done := make(chan struct{})
+	buf.cond.L.Lock()
+	go func() {
+		buf.Push(kafka.Message{Key: []byte("k")})
+		pushed = true
+		close(done)
+	}()
+	vrt.WaitQuiescent(20 * time.Millisecond)
+	vrt.Assert(!pushed, "push-does-not-complete-while-the-consumer-side-holds-the-buffer")
+	buf.cond.L.Unlock()
+	<-done
+	vrt.Assert(buf.Length() == 1, "pushed-element-is-in-the-buffer")
+	vrt.Reach("excluded")
 }
